@@ -261,6 +261,29 @@ fn c07_gene_name_cap_utf8() {
     core::mem::forget(out);
 }
 
+/// cheaper variant of the cap probe: the emitted name field is valid UTF-8 iff the cut position
+/// (the announced name length) is a character boundary of the original name
+#[kani::proof]
+#[kani::unwind(262)]
+fn c07_gene_name_cap_boundary() {
+    let mut raw = [b'a'; 258];
+    let c: [u8; 3] = kani::any();
+    raw[253] = c[0];
+    raw[254] = c[1];
+    raw[255] = c[2];
+    let Ok(name) = core::str::from_utf8(&raw) else {
+        return;
+    };
+    let g = Gene::new(GeneId::from(7u32), name);
+    let out = g.as_bytes();
+    let cut = out[8] as usize;
+    assert!(cut <= 255, "name length capped at 255");
+    assert!(name.is_char_boundary(cut), "the name is cut at a character boundary (otherwise the loader rejects the record)");
+    kani::cover!(c[0] >= 0xC0, "multi-byte character at the cut");
+    core::mem::forget(out);
+    core::mem::forget(g);
+}
+
 #[kani::proof]
 #[kani::unwind(8)]
 fn c07_gene_twin_must_fail() {
